@@ -101,10 +101,33 @@ theorem links_unfold {off : Nat} {s0 V : Array Cell} {s5 s6 : Store} {c0 cA r : 
       refine ⟨sh, sh', hsh, g1', g2.symm, g3.symm, AllRel.imp_mem (fun k k' hkm hl => ⟨hk k hkm, ?_⟩) g4⟩
       simpa using hl
 
-/-- **`optimize_data_block_and_retain` after its guard**: all it reports is linked to what was there -/
-theorem optimizeBody_links {s s' : Store} {roots m : List Nat}
-    (h : Store.optimizeBody s roots = .ok (s', m)) (hr : s.retention ≤ s.cells.size) (hy : OptHyp s) :
-    ∃ L, LinksPreserved s s' roots m L := by
+/-- what the phases after the re-pointing loop establish, in terms of the store `sR` that loop returns:
+heads, roots and symbol names are reported along links of `sR`; the compacted block is the retained prefix of `sR`
+followed by everything behind the index list -/
+structure TailFacts (s s' : Store) (roots m : List Nat) (sR : Store) (c0 cA : Nat) : Prop where
+  register : HeadRel (Link sR c0 cA) s.currentRegister s'.currentRegister
+  value : HeadRel (Link sR c0 cA) s.currentValue s'.currentValue
+  frame : HeadRel (Link sR c0 cA) s.currentFrame s'.currentFrame
+  rootsLen : m.length = roots.length
+  roots : ∀ (k r : Nat), roots[k]? = some r → ∃ r', m[k]? = some r' ∧ Link sR c0 cA r r'
+  symLen : s'.symtab.size = s.symtab.size
+  syms : ∀ (j sym di : Nat), s.symtab[j]? = some (.associativeItem sym di) →
+    ∃ di', s'.symtab[j]? = some (.associativeItem sym di') ∧ Link sR c0 cA di di'
+  retention : s'.retention = s.retention
+  pre : ∀ i, i < s.retention → s'.cells[i]? = sR.cells[i]?
+  shift : Shift sR.cells s'.cells cA s.retention
+
+/-- **`optimize_data_block_and_retain` after its guard**, phase by phase: the index phase appends (`s5`), the
+reversed walk satisfies its invariant with the slide offset (`s6`), the re-pointing loop runs on `s6` (`sR`), and the
+rest is `TailFacts` -/
+theorem optimizeBody_core {s s' : Store} {roots m : List Nat}
+    (h : Store.optimizeBody s roots = .ok (s', m)) (hr : s.retention ≤ s.cells.size) (hlw : ListsWF s.cells) :
+    ∃ s5 s6 sR : Store,
+      CInv (s5.cells.size - s.retention) s.cells s5 s.cells.size s5.cells.size 0 s6 ∧
+      s.cells.size ≤ s5.cells.size ∧ s6.retention = s.retention ∧ s6.start = s.start ∧
+      s6.currentValue = s.currentValue ∧
+      Store.repointLoop (s6.start + s.cells.size) (s6.start + s5.cells.size) s.cells.size s6 s.currentValue = .ok sR ∧
+      TailFacts s s' roots m sR s.cells.size s5.cells.size := by
   unfold Store.optimizeBody at h
   simp only [bind_eq_ok] at h
   obtain ⟨s1, h1, s2, h2, s3, h3, s4, h4, s5, h5, h6⟩ := h
@@ -131,7 +154,8 @@ theorem optimizeBody_links {s s' : Store} {roots m : List Nat}
           · rw [Array.getElem?_eq_none h] at hc; cases hc
         rw [e15.keep i hi hi]; exact hc
       · intro j hj1 hj2; omega
-    have hinv : CInv (s5.start + s5.cursor - (s.start + s.retention)) s.cells s5 s.cells.size s5.cells.size 0 s6' := by
+    rw [hoffv] at hinv0
+    have hinv : CInv (s5.cells.size - s.retention) s.cells s5 s.cells.size s5.cells.size 0 s6' := by
       split at h7
       · simp only [bind_eq_ok, pure_eq_ok] at h7
         obtain ⟨⟨sx, rx⟩, hx, hy'⟩ := h7
@@ -143,7 +167,8 @@ theorem optimizeBody_links {s s' : Store} {roots m : List Nat}
           · simp only [pure, Outcome.ok.injEq, Prod.mk.injEq] at h3'; exact h3'.1
           · simp at h3'
         subst hs2
-        exact cloneLoop_step_inv (Nat.le_refl _) hy.listsWF (Or.inr (by rw [hret5]; omega)) _ _ _ hinv0
+        rw [hoffv] at hloop
+        exact cloneLoop_step_inv (Nat.le_refl _) hlw (Or.inr (by rw [hret5]; omega)) _ _ _ hinv0
           (by simpa [Store.cursor] using hloop)
       · rename_i hne
         simp only [pure, Outcome.ok.injEq] at h7
@@ -157,25 +182,11 @@ theorem optimizeBody_links {s s' : Store} {roots m : List Nat}
         rw [hEq, Nat.sub_self] at hinv0
         rw [hEq]
         exact hinv0
-    -- the re-pointing loop finds nothing to re-point
-    have hvc' : ValueLinksClosed s6' := by
-      intro i p v hi hcell
-      rw [hinv.ret, hret5] at hi ⊢
-      have hcell0 : s.cells[i]? = some (.value p v) ∨ s.cells[i]? = some (.valueRoot v) := by
-        have hlt : i < s.cells.size := by omega
-        obtain ⟨c, hc⟩ : ∃ c, s.cells[i]? = some c := ⟨s.cells[i], by simp [hlt]⟩
-        have := hinv.agree0 i c hc
-        rcases hcell with h | h
-        · rw [h] at this; left; rw [hc]; exact this.symm ▸ rfl
-        · rw [h] at this; right; rw [hc]; exact this.symm ▸ rfl
-      exact hy.valueLinksClosed i p v hi hcell0
-    have hsame : s6 = s6' := repointLoop_noop _ _ _ _ _ _ hvc' hR
-    subst hsame
-    obtain ⟨hsd7, hsz7, hr7, hv7, hf7, _, _, hmid7⟩ := remapSymbols_spec _ _ _ _ _ _ h8
-    have hstart6 : s6.start = s.start := hinv.start.trans hstart5
-    have hret6 : s6.retention = s.retention := hinv.ret.trans hret5
-    have hheads6 : s6.currentRegister = s.currentRegister ∧ s6.currentValue = s.currentValue ∧
-        s6.currentFrame = s.currentFrame := by
+    have eR := repointLoop_ext _ _ _ _ _ _ hR
+    have hstart6' : s6'.start = s.start := hinv.start.trans hstart5
+    have hret6' : s6'.retention = s.retention := hinv.ret.trans hret5
+    have hheads6' : s6'.currentRegister = s.currentRegister ∧ s6'.currentValue = s.currentValue ∧
+        s6'.currentFrame = s.currentFrame := by
       split at h7
       · simp only [bind_eq_ok, pure_eq_ok] at h7
         obtain ⟨⟨sx, rx⟩, hx, hy'⟩ := h7
@@ -186,7 +197,7 @@ theorem optimizeBody_links {s s' : Store} {roots m : List Nat}
       · simp only [pure, Outcome.ok.injEq] at h7
         subst h7
         exact ⟨e15.frame.2.2.2.2.1, e15.frame.2.2.2.1, e15.frame.2.2.2.2.2⟩
-    have hsym6 : s6.symtab = s.symtab := by
+    have hsym6' : s6'.symtab = s.symtab := by
       split at h7
       · simp only [bind_eq_ok, pure_eq_ok] at h7
         obtain ⟨⟨sx, rx⟩, hx, hy'⟩ := h7
@@ -195,6 +206,13 @@ theorem optimizeBody_links {s s' : Store} {roots m : List Nat}
       · simp only [pure, Outcome.ok.injEq] at h7
         subst h7
         exact e15.frame.2.2.1
+    obtain ⟨hsd7, hsz7, hr7, hv7, hf7, _, _, hmid7⟩ := remapSymbols_spec _ _ _ _ _ _ h8
+    have hstart6 : s6.start = s.start := eR.frame.2.1.trans hstart6'
+    have hret6 : s6.retention = s.retention := eR.frame.1.trans hret6'
+    have hheads6 : s6.currentRegister = s.currentRegister ∧ s6.currentValue = s.currentValue ∧
+        s6.currentFrame = s.currentFrame :=
+      ⟨eR.frame.2.2.2.2.1.trans hheads6'.1, eR.frame.2.2.2.1.trans hheads6'.2.1, eR.frame.2.2.2.2.2.trans hheads6'.2.2⟩
+    have hsym6 : s6.symtab = s.symtab := eR.frame.2.2.1.trans hsym6'
     -- the bounds handed to every lookup are `s6.start + c0` and `s6.start + cA`
     have hls : s.start + s.cursor = s6.start + s.cells.size := by simp [Store.cursor, hstart6]
     have hle : s5.start + s5.cursor = s6.start + s5.cells.size := by simp [Store.cursor, hstart6, hstart5]
@@ -203,17 +221,15 @@ theorem optimizeBody_links {s s' : Store} {roots m : List Nat}
     simp only [pure, Outcome.ok.injEq, Prod.mk.injEq] at h9
     obtain ⟨h9, hmm⟩ := h9
     subst hmm
-    have hcA : s5.cells.size ≤ s6.cells.size := hinv.hiLe
+    have hcA : s5.cells.size ≤ s6.cells.size := Nat.le_trans hinv.hiLe eR.mono
     obtain ⟨_, hpre, hshift⟩ := slide_extract_spec s6.cells s.retention s5.cells.size (by omega) hcA
-    have hunf := links_unfold (V := (Store.slide s6.cells s.retention s5.cells.size
-        (s6.cells.size - s5.cells.size)).extract 0 (s.retention + (s6.cells.size - s5.cells.size)))
-      hinv (by omega) hoffv hret6 hy.nodeBack hy.extent
-      (fun i hi => by
-        rw [hpre i hi]
-        have hlt : i < s.cells.size := by omega
-        obtain ⟨c, hc⟩ : ∃ c, s.cells[i]? = some c := ⟨s.cells[i], by simp [hlt]⟩
-        rw [hc]; exact hinv.agree0 i c hc) hshift
-    refine ⟨Link s6 s.cells.size s5.cells.size, ?_⟩
+    have hRnorm : Store.repointLoop (s6'.start + s.cells.size) (s6'.start + s5.cells.size) s.cells.size s6'
+        s.currentValue = .ok s6 := by
+      have e1 : s.start + s.cursor = s6'.start + s.cells.size := by simp [Store.cursor, hstart6']
+      have e2 : s5.start + s5.cursor = s6'.start + s5.cells.size := by simp [Store.cursor, hstart6', hstart5]
+      rw [e1, e2, Nat.add_sub_cancel_left] at hR
+      exact hR
+    refine ⟨s5, s6', s6, hinv, hc0A, hret6', hstart6', hheads6'.2.1, hRnorm, ?_⟩
     -- heads, roots and symbols are looked up in stores with the data of `s6`
     have hsd7 : SameData s6 s7 := hsd7
     have hregL := remapOpt_spec hreg
@@ -234,10 +250,7 @@ theorem optimizeBody_links {s s' : Store} {roots m : List Nat}
       (have hvalL := remapOpt_spec hval
        have hfrL := remapOpt_spec hfr
        obtain ⟨hmlen, hmroots⟩ := remapRoots_spec _ _ _ _ _ hm
-       refine ⟨?_, ?_, ?_, ?_, hmlen, ?_, ?_, ?_, ?_, ?_⟩
-       · intro x x' hl hd fuel
-         have := hunf x x' hl hd fuel
-         simpa [Store.cursor, hsd7.cells, hsd7.ret, hsd7.start, hret6, hstart6, hstart5, Nat.add_sub_add_left] using this
+       refine ⟨?_, ?_, ?_, hmlen, ?_, ?_, ?_, ?_, ?_, ?_⟩
        · rcases hregL with ⟨g1, g2⟩ | ⟨i, m', g1, g2, g3⟩
          · cases g2 <;> exact Or.inl ⟨g1, by simp [hr7, hheads6.1, g1]⟩
          · cases g2 <;> exact Or.inr ⟨i, _, g1, rfl, lookup_link_same hsd7 g3⟩
@@ -254,12 +267,40 @@ theorem optimizeBody_links {s s' : Store} {roots m : List Nat}
        · exact hsymsL
        · simp [hsd7.ret, hret6]
        · intro i hi
-         have hlt : i < s.cells.size := by omega
-         obtain ⟨c, hc⟩ : ∃ c, s.cells[i]? = some c := ⟨s.cells[i], by simp [hlt]⟩
          have h1 := hpre i hi
-         have h2 := hinv.agree0 i c hc
          simp only [Store.cursor, hsd7.cells, hsd7.ret, hsd7.start, hret6, hstart6, hstart5, Nat.add_sub_add_left,
            Nat.add_sub_cancel_left]
-         rw [h1, h2, hc])
+         exact h1
+       · have h2 := hshift
+         simpa [Store.cursor, hsd7.cells, hsd7.ret, hsd7.start, hret6, hstart6, hstart5, Nat.add_sub_add_left] using h2)
+
+/-- all that `optimize` reports is linked to what was there, on heaps whose links all point downwards -/
+theorem optimizeBody_links {s s' : Store} {roots m : List Nat}
+    (h : Store.optimizeBody s roots = .ok (s', m)) (hr : s.retention ≤ s.cells.size) (hy : OptHyp s) :
+    ∃ L, LinksPreserved s s' roots m L := by
+  obtain ⟨s5, s6, sR, hinv, hc0A, hret6, hstart6, _, hR, tf⟩ := optimizeBody_core h hr hy.listsWF
+  -- the re-pointing loop finds nothing to re-point
+  have hvc' : ValueLinksClosed s6 := by
+    intro i p v hi hcell
+    rw [hret6] at hi ⊢
+    have hcell0 : s.cells[i]? = some (.value p v) ∨ s.cells[i]? = some (.valueRoot v) := by
+      have hlt : i < s.cells.size := by omega
+      obtain ⟨c, hc⟩ : ∃ c, s.cells[i]? = some c := ⟨s.cells[i], by simp [hlt]⟩
+      have := hinv.agree0 i c hc
+      rcases hcell with h | h
+      · rw [h] at this; left; rw [hc]; exact this.symm ▸ rfl
+      · rw [h] at this; right; rw [hc]; exact this.symm ▸ rfl
+    exact hy.valueLinksClosed i p v hi hcell0
+  have hsame : sR = s6 := repointLoop_noop _ _ _ _ _ _ hvc' hR
+  subst hsame
+  have hpre0 : ∀ i, i < s.retention → s'.cells[i]? = s.cells[i]? := by
+    intro i hi
+    rw [tf.pre i hi]
+    have hlt : i < s.cells.size := by omega
+    obtain ⟨c, hc⟩ : ∃ c, s.cells[i]? = some c := ⟨s.cells[i], by simp [hlt]⟩
+    rw [hc]; exact hinv.agree0 i c hc
+  have hunf := links_unfold (V := s'.cells) hinv (by omega) rfl hret6 hy.nodeBack hy.extent hpre0 tf.shift
+  exact ⟨Link sR s.cells.size s5.cells.size,
+    ⟨hunf, tf.register, tf.value, tf.frame, tf.rootsLen, tf.roots, tf.symLen, tf.syms, tf.retention, hpre0⟩⟩
 
 end Garnish.BasicOpt
